@@ -189,7 +189,7 @@ def _hyb(U):
     _ext(U)
 
 
-@unit("C21", "OrbitalRotator.__call__: local bases, cache, composite shells", scope="shape:p and 'p;s' with two local bases", expect_min=3)
+@unit("C21", "OrbitalRotator.__call__: local bases, cache, composite shells", scope="shape:p, s, 'p;s', 's;p' with two local bases; rotations 5e-3 and 1e-7 apart", expect_min=6)
 def _rotator(U):
     import wannierberri.symmetry.orbitals as om
     from scipy.linalg import block_diag
@@ -197,18 +197,14 @@ def _rotator(U):
     orbs = types.SimpleNamespace(rot_orb=lambda orb_symbol=None, rot_glb=None: (calls.append((orb_symbol, rnp.array(rot_glb))), rnp.eye({"p": 3, "s": 1}[orb_symbol]) * (len(calls)))[1])
     call = U.fn(F_ORB, "OrbitalRotator.__call__", globs=dict(np=rnp, block_diag=block_diag), model=False, rewrite_comps=False)
 
+    init = U.fn(F_ORB, "OrbitalRotator.__init__", globs=dict(np=rnp, UniqueList=om.UniqueList, get_orbitals=lambda: orbs), model=False, rewrite_comps=False)
+
     def body():
-        me = types.SimpleNamespace(calcualted_matrices=om.UniqueList(tolerance=1e-4), orbitals=orbs, results_dict={})
-        me.__call__ = lambda *a, **k: call(me, *a, **k)
-
         class Me:
-            calcualted_matrices = me.calcualted_matrices
-            orbitals = orbs
-            results_dict = me.results_dict
-
             def __call__(self, *a, **k):
                 return call(self, *a, **k)
         m = Me()
+        init(m)                      # the rotator's own state: the list of rotations seen so far (with ITS matching tolerance), the shell calculator, the cache
         R = rnp.array([[0.0, -1, 0], [1, 0, 0], [0, 0, 1]])
         b1, b2 = rnp.array([[0.0, 1, 0], [-1, 0, 0], [0, 0, 1]]), rnp.array([[1.0, 0, 0], [0, 0, 1], [0, -1, 0]])
         del calls[:]
@@ -219,6 +215,22 @@ def _rotator(U):
         C = m(" p;s ", rot_cart=R)
         U.ensure("';'-separated shells: block diagonal of the shells' matrices for the same rotation", C.shape == (4, 4) and rnp.allclose(C[3, :3], 0) and rnp.allclose(C[:3, 3], 0) and len(calls) == 3
                  and all(rnp.allclose(c_[1], R) for c_ in calls[1:]))
+        n0 = len(calls)
+        s1, p1, C2 = m("s", rot_cart=R), m("p", rot_cart=R), m("p;s", rot_cart=R)
+        U.ensure("after a composite request its sub-shells and the composite itself are still served with their own matrices (the cache is keyed by the requested shell string)",
+                 s1.shape == (1, 1) and p1.shape == (3, 3) and C2.shape == (4, 4) and rnp.allclose(C2, C) and len(calls) == n0)
+        del calls[:]
+        Cl = m("s;p", rot_cart=R, basis1=b1, basis2=b2)
+        U.ensure("composite shell with local bases: every sub-shell is computed for basis2 R basis1^T (the bases enter once)",
+                 Cl.shape == (4, 4) and [c_[0] for c_ in calls] == ["s"] and rnp.allclose(calls[0][1], b2 @ R @ b1.T) and rnp.allclose(Cl[1:, 1:], A))
+        # distinct rotations are not conflated: a rotation 5e-3 away from an earlier one gets its own matrix; one 1e-7 away (noise) shares it
+        th = 5e-3
+        Rt = rnp.array([[rnp.cos(th), -rnp.sin(th), 0], [rnp.sin(th), rnp.cos(th), 0], [0, 0, 1.0]])
+        del calls[:]
+        near = m("p", rot_cart=R @ Rt)
+        noise = m("p", rot_cart=R + 1e-7)
+        U.ensure("a rotation 5e-3 away from a cached one is computed on its own; rounding noise (1e-7) is served from the cache",
+                 len(calls) == 1 and rnp.allclose(calls[0][1], R @ Rt, atol=1e-12) and near is not p1 and noise is p1)
         try:
             m("p", rot_cart=R, basis1=b1)
             ok = False
